@@ -198,7 +198,11 @@ fn parse_nat<const BASE: u32>(raw: &str) -> Result<f64> {
 		} else if let Some(digit) = checked_sub_if(BASE > 10, digit, UPPER_A_CODE) {
 			digit + 10
 		} else {
-			digit.checked_sub(ZERO_CODE).unwrap_or(BASE)
+			// Only '0'..='9' are decimal digits, ':'..'?' follow them in ASCII and would pass as 10..15 in base 16
+			digit
+				.checked_sub(ZERO_CODE)
+				.filter(|digit| *digit < 10)
+				.unwrap_or(BASE)
 		};
 
 		if digit < BASE {
